@@ -147,3 +147,32 @@ macro_rules! verif_fault_basic {
         }
     };
 }
+
+/// Projection of one stored peer, for state dumps
+#[derive(Clone, Debug)]
+pub struct PeerDump {
+    /// (ip, port) for UDP / HTTP, empty for WebTorrent
+    pub addr: Option<(std::net::IpAddr, u16)>,
+    /// peer id where the storage keeps one
+    pub peer_id: Option<[u8; 20]>,
+    pub seeder: bool,
+    pub valid_until: u32,
+    /// WebTorrent: owning (socket worker, connection slot key as ffi u64)
+    pub owner: Option<(u8, u64)>,
+    /// WebTorrent: pending offers (answering peer id, offer id, valid until)
+    pub expecting_answers: Vec<([u8; 20], [u8; 20], u32)>,
+}
+
+/// Projection of one torrent, entries in storage order
+#[derive(Clone, Debug)]
+pub struct TorrentDump {
+    pub ipv4: bool,
+    pub info_hash: [u8; 20],
+    /// heap (IndexMap) representation rather than the inline one
+    pub large: bool,
+    /// cached seeder counter, where the representation keeps one
+    pub num_seeders: Option<usize>,
+    /// Arc strong count of the peer map (UDP)
+    pub strong_count: Option<usize>,
+    pub peers: Vec<PeerDump>,
+}
